@@ -62,4 +62,159 @@ def outputLen : Decision → Option Nat
   | .raw p => some p.length
   | .snappy n => some n
 
+
+/-! ## The production path: `LengthDelimitedCodecWithCompress` (the codec every CKB protocol
+connection is opened with, `network/src/protocols/mod.rs` `CKBProtocol::build`)
+
+`tokio_util::codec::length_delimited::Builder::new().max_frame_length(m).new_codec()`: a 4-byte
+big-endian length field at offset 0, no length adjustment, the head is skipped; the decoder is
+stateful (`DecodeState::Head | Data(n)`).  `encode` (`process`) writes the same head by hand
+(`dst.put_uint(len as u64, 4)`, translated as `ENCODE_LENGTH_FIELD_LEN`). -/
+
+/-- number of head bytes of the tokio_util decoder as configured (builder default) -/
+def HEAD_LEN : Nat := 4
+
+structure Cfg where
+  /-- `max_frame_length` of the protocol (`SupportProtocols::max_frame_length`) -/
+  maxFrame : Nat
+  /-- `enable_compress` (only `encode` looks at it) -/
+  compress : Bool
+deriving Repr
+
+/-- `DecodeState` -/
+inductive DecState
+  | head
+  | data (n : Nat)
+deriving Repr, DecidableEq
+
+/-- `Buf::get_uint(4)`: big-endian value of the first four bytes -/
+def be32 : Bytes → Nat
+  | a :: b :: c :: d :: _ => ((a.toNat * 256 + b.toNat) * 256 + c.toNat) * 256 + d.toNat
+  | _ => 0
+
+/-- `BufMut::put_uint(n, 4)`: the low four bytes, big-endian -/
+def be32enc (n : Nat) : Bytes :=
+  [UInt8.ofNat (n / 16777216 % 256), UInt8.ofNat (n / 65536 % 256), UInt8.ofNat (n / 256 % 256), UInt8.ofNat (n % 256)]
+
+inductive Ld
+  | pending
+  | err
+  | frame (data : Bytes)
+deriving Repr
+
+/-- `decode_data` -/
+def ldData (n : Nat) (src : Bytes) : Ld × DecState × Bytes :=
+  if src.length < n then (.pending, .data n, src) else (.frame (src.take n), .head, src.drop n)
+
+/-- one call of `LengthDelimitedCodec::decode`: (answer, new state, what is left in `src`).
+An over-long length field is refused as soon as the four head bytes are there, before any payload
+byte has arrived (the head is not consumed in that case: only a `Cursor` was advanced). -/
+def ldDecode (maxFrame : Nat) : DecState → Bytes → Ld × DecState × Bytes
+  | .head, src =>
+    if src.length < HEAD_LEN then (.pending, .head, src)
+    else if be32 src > maxFrame then (.err, .head, src)
+    else ldData (be32 src) (src.drop HEAD_LEN)
+  | .data n, src => ldData n src
+
+/-- what one accepted frame stands for, up to the call of the snappy decoder -/
+inductive Item
+  /-- flag clear: the frame without its flag byte -/
+  | raw (payload : Bytes)
+  /-- flag set, announced length `len ≤ MAX_UNCOMPRESSED_LEN`: `BytesMut::zeroed(len)` is handed to
+  the snappy decoder together with `body` -/
+  | snappy (len : Nat) (body : Bytes)
+deriving Repr, DecidableEq
+
+/-- the body of `decode` after the length-delimited layer returned `data`: `none` = `InvalidData` -/
+def frameItem (data : Bytes) : Option Item :=
+  if data.length < DECODE_MIN_FRAME_LEN then none else
+  match data with
+  | [] => none
+  | b :: rest =>
+    if compressFlag b then
+      match decompressLen rest with
+      | some n => if n > MAX_UNCOMPRESSED_LEN then none else some (.snappy n rest)
+      | none => none
+    else some (.raw rest)
+
+inductive Step
+  | pending
+  | err
+  | item (i : Item)
+deriving Repr
+
+/-- one call of `LengthDelimitedCodecWithCompress::decode` -/
+def decodeCall (cfg : Cfg) (st : DecState) (src : Bytes) : Step × DecState × Bytes :=
+  if src.isEmpty then (.pending, st, src) else
+  match ldDecode cfg.maxFrame st src with
+  | (.pending, st', r) => (.pending, st', r)
+  | (.err, st', r) => (.err, st', r)
+  | (.frame d, st', r) =>
+    match frameItem d with
+    | none => (.err, st', r)
+    | some i => (.item i, st', r)
+
+/-- how a `FramedRead` loop ends for the bytes received so far -/
+inductive End
+  /-- waiting for more bytes with this decoder state and this unconsumed buffer -/
+  | pending (st : DecState) (buf : Bytes)
+  /-- the decoder returned an error: the stream is closed, nothing more is decoded -/
+  | err
+deriving Repr, DecidableEq
+
+/-- `FramedRead::poll_next` until `Ok(None)` / `Err`: the frames decoded from the buffered bytes.
+(`fuel`: every accepted frame consumes at least `DECODE_MIN_FRAME_LEN` bytes.) -/
+def drainF (cfg : Cfg) : Nat → DecState → Bytes → List Item × End
+  | 0, st, src => ([], .pending st src)
+  | fuel + 1, st, src =>
+    match decodeCall cfg st src with
+    | (.pending, st', r) => ([], .pending st' r)
+    | (.err, _, _) => ([], .err)
+    | (.item i, st', r) =>
+      let (is, e) := drainF cfg fuel st' r
+      (i :: is, e)
+
+def drain (cfg : Cfg) (st : DecState) (src : Bytes) : List Item × End :=
+  drainF cfg (src.length + 1) st src
+
+/-- a connection: the frames delivered so far and how the read loop stands -/
+structure Conn where
+  items : List Item
+  state : End
+deriving Repr, DecidableEq
+
+def Conn.init : Conn := ⟨[], .pending .head []⟩
+
+/-- the next chunk of bytes arrives from the socket -/
+def feed (cfg : Cfg) (c : Conn) (chunk : Bytes) : Conn :=
+  match c.state with
+  | .err => c
+  | .pending st buf =>
+    let (is, e) := drain cfg st (buf ++ chunk)
+    ⟨c.items ++ is, e⟩
+
+def feedAll (cfg : Cfg) (c : Conn) (chunks : List Bytes) : Conn := chunks.foldl (feed cfg) c
+
+/-- the decoded message of an item; `snap body = some out`: the snappy decoder succeeded and wrote
+`out`.  The returned buffer is the `zeroed(len)` buffer, so its length is `len` whatever the
+decoder wrote (`fitTo`); a decoder failure is `InvalidData`. -/
+def fitTo (n : Nat) (out : Bytes) : Bytes := (out ++ List.replicate (n - out.length) 0).take n
+
+def finish (snap : Bytes → Option Bytes) : Item → Option Bytes
+  | .raw p => some p
+  | .snappy n body => (snap body).map (fitTo n)
+
+/-- `process`: head + flag + body, refused above `max_frame_length` -/
+def encProcess (cfg : Cfg) (body : Bytes) (flag : Nat) : Option Bytes :=
+  if body.length + 1 > cfg.maxFrame then none
+  else some (be32enc (body.length + 1) ++ UInt8.ofNat flag :: body)
+
+/-- `Encoder::encode` (`comp` = `snap::raw::Encoder::compress_vec`, which cannot fail below 4 GiB) -/
+def encode (comp : Bytes → Bytes) (cfg : Cfg) (data : Bytes) : Option Bytes :=
+  if cfg.compress && decide (data.length > COMPRESSION_SIZE_THRESHOLD) then
+    let res := comp data
+    if res.length ≥ data.length then encProcess cfg data UNCOMPRESS_FLAG
+    else encProcess cfg res COMPRESS_FLAG
+  else encProcess cfg data UNCOMPRESS_FLAG
+
 end CkbVerif.Frame
